@@ -6,6 +6,7 @@ and every other kernel is executed with calls to `sub` replaced by that contract
 defining equation); the precondition is an obligation at each call site."""
 import time
 from vp import build
+from vp import native
 from vp.lharness import *
 from llsym.poly import Poly, ZERO
 
@@ -143,7 +144,7 @@ def mk(rep, cfg, modpath, fn, nargs, in_tops, assume_lt, goal_fn, T, use_contrac
         for (n2, c2) in g2:
             if n2 == gname: return eval_concrete(r2, c2), dict(llsym_concrete_outputs=[x.cval() for x in o2])
         return False, "goal not evaluable concretely: " + gname
-    return discharge(rep, run, "%s/%s" % (cfg, fn), goals, o, cfg, fn, bounds_note, timeout_s=T, replay=replay, selftest=build_run,
+    return discharge(rep, run, "%s/%s" % (cfg, fn), goals, o, cfg, fn, bounds_note, timeout_s=T, replay=replay, selftest=build_run, nat=(cfg, fn, lay),
                      assumptions=(["calls to Scalar::sub summarised by its contract (established by harness %s/vp_us_sub in this run)" % cfg] if use_contract else []))
 
 def run_config(rep, cfg, tier, tasks, flavour="O3"):
@@ -201,7 +202,7 @@ def bytes_harnesses(rep, cfg, modpath, T):
             return False, "goal not found"
         return replay
     run, goals, o = b1()
-    discharge(rep, run, "%s/vp_us_from_bytes" % cfg, goals, o, cfg, "vp_us_from_bytes", "all 2^256 byte strings", timeout_s=T, replay=rp(b1), selftest=b1)
+    discharge(rep, run, "%s/vp_us_from_bytes" % cfg, goals, o, cfg, "vp_us_from_bytes", "all 2^256 byte strings", timeout_s=T, replay=rp(b1), selftest=b1, nat=(cfg, 'vp_us_from_bytes', lay))
     # as_bytes
     def b2(concrete=None, shadow=None):
         run = Run(module(modpath)); run.concrete = concrete; run.shadow = shadow
@@ -212,7 +213,7 @@ def bytes_harnesses(rep, cfg, modpath, T):
         goals = [("value(bytes) == value(limbs)", ne(BYTES32.value(o), lay.value(limbs)))]
         return run, goals, o
     run, goals, o = b2()
-    discharge(rep, run, "%s/vp_us_as_bytes" % cfg, goals, o, cfg, "vp_us_as_bytes", "limbs < 2^%d, value < 2^256" % rb, timeout_s=T, replay=rp(b2), selftest=b2)
+    discharge(rep, run, "%s/vp_us_as_bytes" % cfg, goals, o, cfg, "vp_us_as_bytes", "limbs < 2^%d, value < 2^256" % rb, timeout_s=T, replay=rp(b2), selftest=b2, nat=(cfg, 'vp_us_as_bytes', BYTES32))
     # from_bytes_wide: 512-bit reduction
     def b3(concrete=None, shadow=None):
         run = Run(module(modpath)); run.concrete = concrete; run.shadow = shadow
@@ -228,13 +229,14 @@ def bytes_harnesses(rep, cfg, modpath, T):
             for k, c in enumerate(mc.calls): goals.append(("montgomery_mul call %d precondition a*b < R*l" % k, Cond("const", not c["pre_ok"])))
         return run, goals, o
     run, goals, o = b3()
-    discharge(rep, run, "%s/vp_us_from_bytes_wide" % cfg, goals, o, cfg, "vp_us_from_bytes_wide", "all 2^512 byte strings", timeout_s=T, replay=rp(b3), selftest=b3,
+    discharge(rep, run, "%s/vp_us_from_bytes_wide" % cfg, goals, o, cfg, "vp_us_from_bytes_wide", "all 2^512 byte strings", timeout_s=T, replay=rp(b3), selftest=b3, nat=(cfg, 'vp_us_from_bytes_wide', lay),
               assumptions=["calls to Scalar::sub and Scalar::montgomery_mul summarised by their contracts (established by harnesses %s/vp_us_sub, %s/vp_us_montgomery_mul in this run)" % (cfg, cfg)])
 
 def run(tier, seed):
     rep = Report("C02")
     cfgs = ["serial64", "serial32"]
     build.ir_many([dict(config=c, flavour="O3") for c in cfgs])
+    for c in cfgs: native.binary(c)
     tasks = []
     for cfg in cfgs: run_config(rep, cfg, tier, tasks)
     run_tasks(tasks, rep)
